@@ -11,7 +11,7 @@
        right-hand sides.
    Still missing: dense copy/copyrows/copycols theorems; SWAR popcounts (correspondence only). *)
 From Coq Require Import NArith Arith List Bool.
-From OFV Require Import ListAux Dense DenseProofs DenseSolve DenseSolveProofs DenseSolveComplete.
+From OFV Require Import ListAux Dense DenseProofs DenseSolve DenseSolveProofs DenseSolveComplete DenseSolveNZ.
 Import ListNotations.
 
 Theorem dense_get_after_set : forall m i j v i' j', WFd m -> i < dr m -> j < dc m ->
@@ -55,7 +55,17 @@ Theorem solver_failure_independent_of_rhs :
   (solve Sy sxor s0 p q y1 = None <-> solve Sy sxor s0 p q y2 = None).
 Proof. exact solve_control_independent_of_rhs. Qed.
 
+(* all-zero rows (whose right-hand side the ML path leaves unspecified) do not influence the result *)
+Theorem solver_ignores_zero_rows :
+  forall (Sy : Type) (sxor : Sy -> Sy -> Sy) (s0 : Sy),
+  (forall a b c, sxor a (sxor b c) = sxor (sxor a b) c) -> (forall a b, sxor a b = sxor b a) ->
+  (forall a, sxor s0 a = a) -> (forall a, sxor a a = s0) ->
+  forall (p q : nat) (y : sys Sy) (x : list Sy), WFs Sy p q y -> solve Sy sxor s0 p q y = Some x ->
+  length x = q /\ forall x', sol_nz Sy sxor s0 p q y x' -> forall j, j < q -> nth j x s0 = nth j x' s0.
+Proof. exact solve_sound_nz. Qed.
+
 Print Assumptions dense_get_after_set.
+Print Assumptions solver_ignores_zero_rows.
 Print Assumptions solver_returns_the_solution.
 Print Assumptions solver_fails_iff_rank_deficient.
 Print Assumptions solver_failure_independent_of_rhs.
